@@ -150,7 +150,7 @@ def main():
             self.p = p
             self.cfg = cfg
             self.w = types.SimpleNamespace(modules=sys.modules, import_module=importlib.import_module, environ=os.environ,
-                                           loop_hooks={}, use_contracts=False)
+                                           loop_hooks={}, use_contracts=False, stdout=[])
             self.honest_value = {}
             self.entry = None
 
@@ -405,6 +405,16 @@ def main():
             # the adversary is not bound by the library's run-time checks: only the recorded
             # constraints decide (they are re-evaluated independently below)
             rt._ignore_errors = True
+        class _ErrRec:
+            def write(self_, s):
+                if s.strip():
+                    c.w.stdout.append(("<stderr>", (s,)))
+                return len(s)
+
+            def flush(self_):
+                pass
+        _real_err = sys.stderr
+        sys.stderr = _ErrRec()
         try:
             r = fn(*args, **kwargs)
             rec["outcome"] = "return"
@@ -415,6 +425,7 @@ def main():
             rec["exception"] = type(e).__name__
             rec["message"] = str(e)[:200]
             rec["exc_obj"] = e
+        sys.stderr = _real_err
         state["active"] = False
         # files the real code wrote into the scratch cwd, as the contract's ghost disk
         c.w.fs = {}
